@@ -454,6 +454,20 @@ def _structure_harmonics(eng, ctx, ph, sh, mp, facts, coeffs):
             return None
 
         ctx.check(tst is not None and at_start(tst) is True, "C18.D9", ph.qualname, "probe loop entered", expected="loop condition true before the first probe", found=show(tst)[:40] if tst is not None else "?", **eng.loc(ph, lw.get("node", ph.node)))
+        # the missing attribute ends the loop: on the exception path the loop condition becomes false (or the handler breaks)
+        be_w = lw.get("body_end") or {}
+        brk = [k for k, st_ in lw.get("ends", []) if k == "break"]
+        if tst is not None and not is_const(tst):
+            fv = tst[1] if tst[0] == "not" else tst
+            exits = False
+            if fv[0] == "loop" and fv[1] == Lw:
+                v = be_w.get(fv[2])
+                exc_vals = [leaf for g, leaf in leaves(v) if any(c[0] == "exc-path" and pol for c, pol in g)] if v is not None else []
+                want = tst[0] != "not"  # value of the flag that keeps the loop running
+                exits = bool(exc_vals) and all(is_const(x) and bool(x[1]) != want for x in exc_vals)
+            ctx.check(exits or bool(brk), "C18.D9", ph.qualname, "probe loop ends at the first missing attribute", expected="the AttributeError path makes the loop condition false (or breaks)", found=show(be_w.get(fv[2], ("?",)))[:80] if fv[0] == "loop" else show(tst)[:40], **eng.loc(ph, lw.get("node", ph.node)))
+        else:
+            ctx.check(bool(brk), "C18.D9", ph.qualname, "probe loop ends at the first missing attribute", expected="a break on the AttributeError path", found=f"{len(brk)} break(s)", **eng.loc(ph, lw.get("node", ph.node)))
         # first index: the last formatted value of NAME is the coefficient index
         fm = [p for p in eg.term[3][1][1] if p[0] == "fmt"] if eg.term[3][1][0] == "fstr" else []
         k = fm[-1][1] if fm else None
